@@ -278,17 +278,17 @@ def merge_stats(procs):
                                             "samples": [], "excluded": {}, "complete": True, "extra": {}})
             t["cases"] += d.get("cases", 0)
             t["nontrivial"] += d.get("nontrivial", 0)
-            for k, v in d.get("classes", {}).items():
+            for k, v in (d.get("classes") or {}).items():
                 t["classes"][k] = t["classes"].get(k, 0) + v
-            for k, v in d.get("excluded", {}).items():
+            for k, v in (d.get("excluded") or {}).items():
                 t["excluded"][k] = t["excluded"].get(k, 0) + v
-            for k, v in d.get("extra", {}).items():
+            for k, v in (d.get("extra") or {}).items():
                 t["extra"][k] = v
             if d.get("fp_truncated"):
                 t["complete"] = False
             t["fp_lower"] = max(t["fp_lower"], d.get("distinct_nontrivial", 0))
-            t["fps"].update(d.get("fps", []))
-            for s in d.get("samples", []):
+            t["fps"].update(d.get("fps") or [])
+            for s in (d.get("samples") or []):
                 if len(t["samples"]) < 6:
                     t["samples"].append(s)
     for t in tests.values():
